@@ -295,3 +295,15 @@ def degenerate_programs():
             out.append('  '.join(' '.join(['...'] * C) for _ in range(S)))
     out += ['... 1RB  0LA 1LB', '... 1LA  1RA 0RB', '... 0RA 1LB  1RA 2LB 0RB', '... 1RB  1LA 0LC  1RC 1LA']
     return out
+
+
+# Programs kept because a seeded change showed only on them (regression corpus; each entry names the change).
+REGRESSION_PROVER = [
+    # C17-m8 (Prover.configs keyed by (state, signature)): a second state meets an already known signature at gaps d, 2d, 3d
+    ('1RB 2LB 0LA 1RA  2LA 2LB 3RA 1LA', 2000),
+    ('1RB 2LB 3LA 1LB  2LA 0RA 0RA 3RB', 2000),
+    ('1RB 1RA 3LB 2LA  2LB 3LA 2LA 1RB', 2000),
+    ('1RB 1LB 2RB 2LB  2LA 2RB 3RB 0LA', 2000),
+    # C17-m7 (saturating i32 cast of counts): a rule proved while a changing count is already above 2^31
+    ('1RB 2RB 3LA 2RA  2LA 2LB 1LA 3RB', 3000),
+]
